@@ -106,6 +106,37 @@ fn drive_shared(mut it: Iter<'_, Tracked>, sel: &[Obs], script: &[Step]) -> R<()
                 }
             }
             Step::Skip(_) | Step::StepBy(_) => {}
+            Step::Search => {
+                let rem = &sel[lo..hi];
+                let n = rem.len();
+                // the element in the middle of what is left, looked for from both ends
+                let target = rem.get(n / 2).map(|o| o.id);
+                let idof = |t: &Tracked| t.peek_id().unwrap_or(0);
+                let pos = it.clone().position(|t| Some(idof(t)) == target);
+                let rpos = it.clone().rposition(|t| Some(idof(t)) == target);
+                let want = if n > 0 { Some(n / 2) } else { None };
+                if pos != want || rpos != want {
+                    return Err(format!("position()/rposition() of the middle element gave {:?}/{:?}, expected {:?}", pos, rpos, want));
+                }
+                chk("find()", it.clone().find(|t| Some(idof(t)) == target), rem.get(n / 2))?;
+                chk("rfind()", it.clone().rfind(|t| Some(idof(t)) == target), rem.get(n / 2))?;
+                // ids ascend with creation order only by accident, so use addresses of the expected elements
+                let maxid = rem.iter().map(|o| o.id).max();
+                let minid = rem.iter().map(|o| o.id).min();
+                if it.clone().max_by_key(|t| idof(t)).map(idof) != maxid || it.clone().min_by_key(|t| idof(t)).map(idof) != minid {
+                    return Err("max_by_key()/min_by_key() disagree with the remaining elements".into());
+                }
+                if !it.clone().all(|t| rem.iter().any(|o| o.addr == addr(t))) || it.clone().any(|t| !rem.iter().any(|o| o.id == idof(t))) {
+                    return Err("all()/any() saw an element outside the remaining ones".into());
+                }
+                let addrs: Vec<usize> = rem.iter().map(|o| o.addr).collect();
+                if !it.clone().map(addr).eq(addrs.iter().copied()) || !it.clone().rev().map(addr).eq(addrs.iter().rev().copied()) {
+                    return Err("Iterator::eq over the remaining elements (forwards or reversed) is false".into());
+                }
+                if it.clone().skip(1).count() != n.saturating_sub(1) || it.clone().step_by(2).count() != (n + 1) / 2 || it.clone().take(2).count() != n.min(2) {
+                    return Err("skip/step_by/take counts are wrong".into());
+                }
+            }
             Step::RFold => {
                 // internal iteration from the back, two spellings
                 let v: Vec<&Tracked> = it.clone().rfold(Vec::new(), |mut v, t| {
@@ -275,7 +306,7 @@ fn drive_mut(mut it: IterMut<'_, Tracked>, sel: &[Obs], script: &[Step], mut new
                 }
                 return Ok(writes);
             }
-            Step::Fork | Step::Skip(_) | Step::StepBy(_) => {}
+            Step::Fork | Step::Skip(_) | Step::StepBy(_) | Step::Search => {}
         }
     }
     len_chk("iterator", it.len(), it.size_hint(), hi - lo)?;
@@ -483,6 +514,7 @@ impl St {
                             let rem: Vec<u32> = before[lo..hi].iter().map(|m| m.0).collect();
                             debug_touches_only("the owning iterator", &rem, || it.debug_string())?;
                         }
+                        Step::Search => {}
                         Step::Count | Step::Fold | Step::Last | Step::RevCollect | Step::Skip(_) | Step::StepBy(_) | Step::RFold | Step::RevLast => {
                             let (v, rev) = match st {
                                 Step::Fold => (it.fold_collect(), false),
